@@ -93,7 +93,6 @@ ApplyQueued(n, st, c, q, applied, k) ==
          IN ApplyQueued(n1, st, c, Tail(q), Max(applied, e.i), k)
 QueueLast(a) == IF a.queue = <<>> THEN 0 ELSE Last(a.queue).i
 
-NE(n, err) == [n |-> n, err |-> err]
 Expected(e, A) ==       \* A = converted args;  = [n, err] (+ rd / light where applicable)
     LET j == e.n
         N == node[j]
